@@ -7,8 +7,8 @@ from pyerr import exc_code
 import props.c06_impl as I
 
 PROP = 'C06'
-COQ_TARGETS = ['theories/NetFacts.vo', 'theories/NetTerm.vo', 'theories/NetTerm2.vo', 'theories/NetReply.vo', 'theories/NetOnce.vo', 'theories/NetRoute.vo', 'theories/NetArrive.vo', 'theories/NetLocal.vo', 'theories/NetBcast.vo', 'theories/NetTree.vo', 'theories/NetFlood.vo', 'theories/NetRound.vo', 'theories/NetCert.vo', 'theories/NetLbc.vo', 'theories/NetAnn.vo', 'theories/NetPark.vo']
-COQ_IMPORTS = 'From Bac Require Import Base Net NetCert.'
+COQ_TARGETS = ['theories/NetFacts.vo', 'theories/NetTerm.vo', 'theories/NetTerm2.vo', 'theories/NetReply.vo', 'theories/NetOnce.vo', 'theories/NetRoute.vo', 'theories/NetArrive.vo', 'theories/NetLocal.vo', 'theories/NetBcast.vo', 'theories/NetTree.vo', 'theories/NetFlood.vo', 'theories/NetRound.vo', 'theories/NetCert.vo', 'theories/NetLbc.vo', 'theories/NetAnn.vo', 'theories/NetPark.vo', 'theories/NetNumFacts.vo', 'theories/NetNumInv.vo']
+COQ_IMPORTS = 'From Bac Require Import Base Net NetCert NetNum.'
 RULE = ('cases: (a) single-node scripts - a random node (station told nothing / its address / network+address, or router of 2..4 '
         'ports with or without an application) receives 1..6 events (cache learning, application sends of every address kind, '
         'arriving frames over DADR none/global/remote-broadcast/remote-station x SADR none/remote/spoofed x hop {0,1,2,254,255,random} x '
@@ -19,12 +19,12 @@ RULE = ('cases: (a) single-node scripts - a random node (station told nothing / 
         'destination kind from random stations (and, in 40 % of the trees, from an application on a router), cold, organically warmed and installed caches; observed: the complete ordered trace of '
         'frames on every LAN and deliveries, compared with the model world run on the same script.  non-trivial = at least one frame '
         'or delivery results; distinct by full script.  (c) tree-cert - for random trees with installed caches the hypotheses of the tree theorems '
-        '(internet_okb, tree_tob, tree_fromb: levels / up-ports / parent ports found by BFS in the harness) are evaluated inside Coq on the model world; expected 1.  (d) node-script-route-aware - node scripts run with settings.route_aware on: submissions to destinations that carry a route, and the route of every source shown.  The direct predicate runs its tree scenarios with route_aware off and on, draws MACs from small per-LAN pools (values shared across LANs), runs warm-one-way/cold-other-way histories, submits concurrent histories (2..3 stations at opposite ends of cold lines/trees of 2..4 routers sending in the same instant), and also submits bursts: 2..4 packets for one remote network handed down in the same instant on cold trees.')
+        '(internet_okb, tree_tob, tree_fromb: levels / up-ports / parent ports found by BFS in the harness) are evaluated inside Coq on the model world; expected 1.  (d) node-script-route-aware - node scripts run with settings.route_aware on: submissions to destinations that carry a route, and the route of every source shown.  The direct predicate runs its tree scenarios with route_aware off and on, draws MACs from small per-LAN pools (values shared across LANs), runs warm-one-way/cold-other-way histories, submits concurrent histories (2..3 stations at opposite ends of cold lines/trees of 2..4 routers sending in the same instant), and also submits bursts: 2..4 packets for one remote network handed down in the same instant on cold trees.  (e) node-script-numbering - node scripts (stations told nothing / their address / network+address, routers) with Network-Number-Is and What-Is-Network-Number frames arriving (broadcast / unicast, well-formed / short / long, own / other number, flag 0 / 1 / other), nse.what_is_network_number(), nse.network_number_is(), the 10 000 s answer timer, interleaved with cache learning, I-Am-Router announcements, sends of every kind and ordinary arrivals; observed additionally: the adapters map (key, adapterNet, adapterNetConfigured per entry) and the timer state.  The direct predicate also runs numbering histories: on random trees the routers announce their network numbers (or stations ask and routers / configured stations answer) before or in the middle of the traffic, after which every (source, kind, destination) must still be delivered exactly once.')
 TRUSTED = ['model coq/theories/Net.v written by hand after netservice.py:329-706, 878-1026 and vlan.py:55-131; tie = correspondence',
            'NPDUs are modelled in decoded form; the harness decodes LAN frames with its own decoder (c06_impl.npdu_decode); the NPCI codec is property C08',
            'RouterInfoCache is abstracted to its lookup function (snet, dnet) -> router MAC (coherent states only; property C19)']
 ASSUMPTIONS = ['settings.route_aware: both settings are exercised; with it on, destinations carrying a route are modelled by indication_routed and the route of the source shown by up_route (addrRoute of DADR/SADR objects is not on the wire)',
-               'network numbers 1..65534; network-layer messages other than Who-Is-Router-To-Network / I-Am-Router-To-Network and vendor types are not generated (model answers Unmodelled)',
+               'network numbers 1..65534; network-layer messages other than Who-Is-Router-To-Network / I-Am-Router-To-Network / What-Is-Network-Number / Network-Number-Is and vendor types are not generated (model answers Unmodelled); the two number messages are generated without DADR and SADR only (they are never routed; with either the model answers Unmodelled)',
                'routers know the network number of each port (a router port without a number raises TypeError in RemoteStation(); Unmodelled)',
                'priority and expecting-reply bits are carried through unchanged and not compared',
                'zero-delay tasks run FIFO (task manager heap keyed by (time, counter))']
@@ -233,6 +233,142 @@ def rnd_script_ra(rng):
                 events.append(('sendr', e[1], rnd_mac(rng), e[2]))
             else:
                 events.append(e)
+        else:
+            events.append(rnd_arrival(rng, ports, known))
+    return ports, has_app, events
+
+
+# ------------------------------------------------------------------ node scripts with network-number learning (NetNum.v)
+TIMER = 10001.0      # WhatIsNetworkNumber schedules the answer of a non-router 10 * 1000 time units later
+
+
+def impl_xscript(ports, has_app, events, grid=GRID):
+    """events: learn / send / arrive as in impl_script, plus ('ask',) = nse.what_is_network_number(),
+    ('announce',) = nse.network_number_is(), ('tick',) = the answer timer period passes.  Appended to the observation:
+    the adapters map of the NetworkServiceAccessPoint and the timer state."""
+    I._modules()
+    I.reset_tasks()
+    log = []
+    node = I.ImplNode('n', [(net, mac) for net, mac in ports], has_app, log)
+    out = []
+    try:
+        for e in events:
+            del log[:]
+            try:
+                if e[0] == 'learn':
+                    node.learn(e[1], e[2], e[3])
+                elif e[0] == 'send':
+                    node.send(e[1], e[2])
+                elif e[0] == 'arrive':
+                    node.arrive(e[1], e[2], e[3], I.npdu_encode(e[4]))
+                elif e[0] == 'ask':
+                    node.nse.what_is_network_number()
+                elif e[0] == 'announce':
+                    node.nse.network_number_is()
+                elif e[0] == 'tick':
+                    I.NOW[0] += TIMER
+                    I.drain_upto(50)
+                else:
+                    raise ValueError(e)
+            except RecursionError:
+                raise
+            except Exception as x:
+                log.append(('raise', exc_code(x)))
+            out.append(len(log))
+            for l in log:
+                out += c_log_entry(l)
+    finally:
+        I.reset_tasks()
+    amap = node.nsap.adapters
+    out.append(len(amap))
+    for key, ad in amap.items():
+        conf = ad.adapterNetConfigured
+        out += [-1 if key is None else key, -1 if ad.adapterNet is None else ad.adapterNet, -1 if conf is None else conf]
+    t = node.nse.network_number_is_task
+    out.append(0 if not t else (1 if t.isScheduled else 2))
+    for i, d, m in node.cache_view(grid):
+        out += [0] if m is None else [1] + c_mac(m)
+    pv = node.nsap.pending_nets
+    out.append(len(pv))
+    for dnet, lst in pv.items():
+        out += [dnet, len(lst)]
+        for n in lst:
+            out += c_npdu(npdu_obj(n))
+    return out
+
+
+def q_xevent(e):
+    if e[0] == 'ask': return 'XAsk'
+    if e[0] == 'announce': return 'XAnnounce'
+    if e[0] == 'tick': return 'XTick'
+    return '(XE %s)' % q_event(e)
+
+
+def case_xscript(ports, has_app, events):
+    exp = impl_xscript(ports, has_app, events)
+    coq = 'c_xscript (run_xscript (xinit %s) [%s]) %s' % (q_node(ports, has_app), ';'.join(q_xevent(e) for e in events), nlist(GRID))
+    desc = {'op': 'node-xscript', 'ports': [[n, None if m is None else bytes(m).hex()] for n, m in ports], 'has_app': has_app,
+            'events': [_jsonable(e) for e in events]}
+    return Case('node-script-numbering', coq, exp, key=('x', repr(ports), has_app, repr(events)), nontrivial=True, desc=desc)
+
+
+def rnd_number_frame(rng, ports, i):
+    """a What-Is-Network-Number / Network-Number-Is frame (no DADR, no SADR) arriving at adapter i"""
+    mynets = [n for n, _ in ports if n is not None]
+    mac_i = ports[i][1]
+    dst = ('lb',) if rng.random() < 0.8 or mac_i is None else ('ls', mac_i)
+    if rng.random() < 0.25:
+        msg, data = 0x12, (b'' if rng.random() < 0.9 else bytes([rng.randrange(256)]))
+    else:
+        msg = 0x13
+        net = rng.choice(mynets + NETPOOL + [7, 9, 300, 65534]) if rng.random() < 0.9 else rng.randrange(65536)
+        flag = rng.choice([0, 1, 1, rng.randrange(256)])
+        data = bytes([net >> 8, net & 255, flag])
+        r = rng.random()
+        if r < 0.06:
+            data = data[:rng.randrange(3)]
+        elif r < 0.1:
+            data += bytes([rng.randrange(256)])
+    return ('arrive', i, rnd_mac(rng), dst, {'dadr': None, 'sadr': None, 'hop': 0, 'msg': msg, 'data': data})
+
+
+def rnd_xscript(rng):
+    """mostly stations (one adapter), because only they can learn a number; the number frames come early and again
+    later (renumbering), the traffic after them"""
+    if rng.random() < 0.75:
+        mode = rng.choice(['none', 'addr', 'addr', 'net'])
+        net, mac = rng.choice(NETPOOL), rnd_mac(rng)
+        ports = [{'none': (None, None), 'addr': (None, mac), 'net': (net, mac)}[mode]]
+        has_app = rng.random() < 0.9
+    else:
+        ports, has_app = rnd_node(rng)
+    events, known = [], []
+    for _ in range(rng.randrange(2, 8)):
+        r = rng.random()
+        i = rng.randrange(len(ports))
+        if r < 0.3:
+            events.append(rnd_number_frame(rng, ports, i))
+        elif r < 0.36:
+            events.append(('ask',))
+        elif r < 0.42:
+            events.append(('announce',))
+        elif r < 0.48:
+            events.append(('tick',))
+        elif r < 0.58:
+            dn = rng.sample(NETPOOL + [7], rng.randrange(1, 3))
+            known += dn
+            events.append(('learn', i, rnd_mac(rng), dn))
+        elif r < 0.66:
+            # an I-Am-Router-To-Network announcement: the cache is filled the way the traffic fills it
+            dn = rng.sample(NETPOOL + [7], rng.randrange(1, 3))
+            known += dn
+            events.append(('arrive', i, rnd_mac(rng), ('lb',),
+                           {'dadr': None, 'sadr': None, 'hop': 0, 'msg': 1, 'data': b''.join(bytes([0, d]) for d in dn)}))
+        elif r < 0.86 and has_app:
+            e = rnd_send(rng, ports)
+            if rng.random() < 0.4:
+                e = ('send', ('gb',), e[2])
+            events.append(e)
         else:
             events.append(rnd_arrival(rng, ports, known))
     return ports, has_app, events
@@ -618,12 +754,12 @@ def case_world(kind, topo, events):
     return Case(kind, coq, exp, key=(kind, repr(topo.describe()), repr(done)), nontrivial=len(exp) > 1 + len(done), desc=desc)
 
 
-def all_dests(topo, src):
+def all_dests(topo, src, learned=()):
     """every (kind, destination address, expected recipients {station key}) for source station src=(net, mac);
     combinations the property does not constrain (a station that was never told its network number addressing
-    its own network by number) are left out"""
+    its own network by number) are left out.  learned = stations that have heard their number announced."""
     snet, smac = src
-    knows = topo.modes.get(src, 'net') == 'net'
+    knows = topo.modes.get(src, 'net') == 'net' or src in learned
     out = []
     everyone = [(n, m) for n, ms in topo.nets.items() for m in ms if (n, m) != src]
     for (n, m) in everyone:
@@ -734,6 +870,8 @@ def cases(rng, tier):
     for _ in range(_n(400 if big else 40)):
         topo = rnd_tree(rng, 8 if rng.random() < 0.6 else 4)
         out.append(case_cert(topo, rng.choice(list(topo.nets))))
+    for _ in range(_n(4000 if big else 500)):
+        out.append(case_xscript(*rnd_xscript(rng)))
     rng.shuffle(out)        # spread the expensive whole-trace cases evenly over the Coq shards
     return out
 
@@ -759,6 +897,7 @@ def check_send(net, topo, src, kind, dest, rec, payload, limit=WATCHDOG, reply=T
         hist_ = net.history = []
     base = {'topology': topo.describe(), 'source': [snet, smac.hex()], 'dest_kind': kind, 'dest': _jsonable(dest),
             'payload': payload.hex(), 'installed_caches': bool(getattr(net, 'installed', False)),
+            'numbering': getattr(net, 'numbering', None),
             'history': [list(h) for h in hist_[-600:]]}        # what this internetwork has carried before (replayed first)
     hist_.append(([snet, smac.hex()], _jsonable(dest), payload.hex()))
     try:
@@ -1072,6 +1211,82 @@ def rnd_concurrent(rng, topo, tag):
     return out
 
 
+def do_numbering(net, topo, spec):
+    """the internetwork distributes its network numbers.  spec['how'] == 'routers': every router announces the numbers
+    of its ports (nse.network_number_is()); 'ask': the listed stations ask (What-Is-Network-Number broadcast on their
+    LAN), the routers answer at once and, with spec['tick'], the answer timer of the configured stations runs out too.
+    Returns the number of frames still in flight (0 = quiet)."""
+    if spec['how'] == 'routers':
+        for r in net.routers:
+            r.nse.network_number_is()
+    else:
+        for n, mh in spec['askers']:
+            st = net.stations[(n, bytes.fromhex(mh))]
+            st.nse.what_is_network_number(st.adapters[0])
+    rem = I.drain_upto(WATCHDOG)
+    if spec.get('tick') and not rem:
+        I.NOW[0] += TIMER
+        rem = I.drain_upto(WATCHDOG)
+    return rem
+
+
+def numbered_lans(topo, spec):
+    router_lans = {n for ports in topo.routers for n, _ in ports}
+    if spec['how'] == 'routers':
+        return router_lans
+    return {n for n, _ in spec['askers']} & router_lans
+
+
+def rnd_numbering(rng, topo, t):
+    keys = list(topo.station_ids)
+    unnumbered = [k for k in keys if topo.modes.get(k, 'net') != 'net']
+    if t % 3 == 0 or not unnumbered:
+        return {'how': 'routers'}
+    askers = rng.sample(unnumbered, rng.randrange(1, len(unnumbered) + 1))
+    if rng.random() < 0.3:
+        askers.append(rng.choice(keys))
+    return {'how': 'ask', 'askers': sorted({(n, m.hex()) for n, m in askers}), 'tick': rng.random() < 0.5}
+
+
+def check_numbering_history(rng, topo, spec, at, nsend, tag, installed=False):
+    """traffic on a tree in the course of which (before send number `at`) the network numbers are distributed: stations
+    that were bound without a number learn it (their adapter is re-filed under the number, their cache too).  Every
+    send before and after must still reach exactly its addressees exactly once showing the originator, replies
+    included; from then on the stations of the announced LANs may also address their own network by number."""
+    net = build(topo)
+    if installed:
+        net.installed = True
+        for e in warm_events(topo):
+            node_of(net, topo, e[1]).learn(e[2], e[3], e[4])
+    keys = list(topo.station_ids)
+    learned = set()
+    n_eval = 0
+    favourite = ('global-broadcast', 'remote-broadcast-own-net', 'unicast-own-net-remote-form', 'local-broadcast')
+    for k in range(nsend):
+        if k == at:
+            net.numbering = dict(spec, at=len(getattr(net, 'history', None) or []), askers=[list(a) for a in spec.get('askers', [])])
+            try:
+                rem = do_numbering(net, topo, spec)
+            except Exception as x:
+                I.reset_tasks()
+                return dict(topology=topo.describe(), numbering=net.numbering, kind='numbering-exception', exc=repr(x)[:200]), n_eval
+            if rem:
+                I.reset_tasks()
+                return dict(topology=topo.describe(), numbering=net.numbering, kind='numbering-no-termination'), n_eval
+            lans = numbered_lans(topo, spec)
+            learned = {key for key in keys if key[0] in lans}
+        fresh = [key for key in learned if topo.modes.get(key, 'net') != 'net']
+        src = rng.choice(fresh) if fresh and rng.random() < 0.6 else rng.choice(keys)
+        dests = all_dests(topo, src, learned)
+        fav = [d for d in dests if d[0] in favourite]
+        kind, dest, rec = rng.choice(fav) if fav and rng.random() < 0.5 else rng.choice(dests)
+        f = check_send(net, topo, src, kind, dest, rec, bytes([tag % 256, k, 0x9b]))
+        n_eval += 1
+        if f is not None:
+            return f, n_eval
+    return None, n_eval
+
+
 def check_router_app_origin(topo, ri, dest, payload):
     """the application on router ri sends; every recipient replies to the source it was shown; the replies must
     reach the router application (reply-routability clause with a router-resident originator)"""
@@ -1273,6 +1488,20 @@ def direct(rng, tier, focus=()):
         nontriv.add(('node', repr(ev)))
     hist['node-clauses'] += n_eval
     failures += note_list
+    # --- numbering histories: the network numbers are announced (routers) or asked for (stations) before or in the
+    #     middle of the traffic; stations bound without a number learn it and go on sending
+    for t in range(_n(200 if big else 40)):
+        topo = rnd_tree(rng, 6 if t % 2 else 4)
+        spec = rnd_numbering(rng, topo, t)
+        ra = (t % 4 == 3)
+        with I.RouteAware(ra):
+            f, ne = check_numbering_history(rng, topo, spec, rng.choice([0, 0, 1, 3]), 14 if big else 10, t, installed=(t % 5 == 4))
+        n_eval += ne
+        hist['numbering/' + spec['how'] + ('+timer' if spec.get('tick') else '')] += ne
+        nontriv.add(('numbering', t))
+        if f is not None:
+            f['route_aware'] = ra
+            failures.append(f)
     for d in focus:
         if isinstance(d, dict) and d.get('op') == 'node-script':
             ports = [(n, None if m is None else bytes.fromhex(m)) for n, m in d['ports']]
@@ -1311,7 +1540,10 @@ def replay(payload):
 
 
 def _replay(f):
-    if 'events' in f and 'ports' in f:
+    if f.get('op') == 'node-xscript':
+        ports = [(n, None if m is None else bytes.fromhex(m)) for n, m in f['ports']]
+        print('implementation:', impl_xscript(ports, f['has_app'], [_unjson(e) for e in f['events']]))
+    elif 'events' in f and 'ports' in f:
         ports = [(n, None if m is None else bytes.fromhex(m)) for n, m in f['ports']]
         ev = [_unjson(e) for e in f['events']]
         print('implementation:', impl_script(ports, f['has_app'], ev))
@@ -1325,19 +1557,32 @@ def _replay(f):
         if f.get('installed_caches'):
             for e in warm_events(topo):
                 node_of(net, topo, e[1]).learn(e[2], e[3], e[4])
-        for hs, hd, hp in f.get('history', []):
+        numb = f.get('numbering')
+        for idx, (hs, hd, hp) in enumerate(f.get('history', [])):
+            if numb and numb.get('at') == idx:
+                do_numbering(net, topo, numb)
             net.stations[(hs[0], bytes.fromhex(hs[1]))].send(_unjson(hd), bytes.fromhex(hp))
             if I.drain_upto(WATCHDOG):
                 I.reset_tasks()
+        if numb and numb.get('at', 0) >= len(f.get('history', [])):
+            do_numbering(net, topo, numb)
         src = (f['source'][0], bytes.fromhex(f['source'][1]))
         dest = _unjson(f['dest'])
-        for kind, d, rec in all_dests(topo, src) + [('reply', dest, [])]:
+        learned = set()
+        if numb:
+            lans = numbered_lans(topo, numb)
+            learned = {key for key in topo.station_ids if key[0] in lans}
+        for kind, d, rec in all_dests(topo, src, learned) + [('reply', dest, [])]:
             if d == dest:
                 print('implementation:', check_send(net, topo, src, kind, dest, rec, bytes.fromhex(f['payload'])))
                 break
     elif 'topology' in f and 'events' in f:
         topo = Topo.from_desc(f['topology'])
         print('implementation:', impl_world(topo, [_unjson(e) for e in f['events']])[0][:400])
+    elif f.get('kind', '').startswith('numbering-'):
+        topo = Topo.from_desc(f['topology'])
+        net = build(topo)
+        print('implementation: frames left in flight after numbering:', do_numbering(net, topo, f['numbering']))
     elif 'concurrent' in f and 'topology' in f:
         topo = Topo.from_desc(f['topology'])
         sends = []
